@@ -947,7 +947,7 @@ impl Check for C05 {
         // one case in sixteen: a tuple with a rest over a two-kind element type against a union of two to four tuples *with
         // rests* whose fixed positions each narrow to one kind or not (prefix lengths 1..3): whether the union covers the
         // tuple is decided position by position and length by length, and the members are met in the order of their names
-        if s.chance(1, 16) {
+        if s.chance(1, 8) {
             let u = D::Union(vec![D::Str, D::Num]);
             let k = s.range(1, 2);
             let a = D::Tuple(vec![u.clone(); k], Some(Box::new(u.clone())));
